@@ -352,6 +352,8 @@ class Emit:
                 return "none"
             if "::" in v:
                 raise Untranslatable("unknown path " + v)
+            if v.upper() == v and any(c.isalpha() for c in v):
+                raise Untranslatable("constant %s cannot be evaluated" % v)
             return v
         if k == "field":
             if n[1] == ("var", "self") and n[2] in self.selfmap:
@@ -763,17 +765,26 @@ CALLS = {
 
 
 def consts_env(src_by_file):
+    """every integer `const NAME: T = expr;` of the source files that can be evaluated (to a fixpoint,
+    so constants defined through other constants resolve in any order)"""
     sys.path.insert(0, os.path.dirname(os.path.abspath(__file__)))
     import extract_consts as ec
     env = {}
-    for name, (f, _) in ec.NAT.items():
-        expr = ec.find_const(src_by_file.get(f, ""), name)
-        if expr is None:
-            continue
-        try:
-            env[name] = ec.eval_nat(expr, env)
-        except Exception:
-            pass
+    items = []
+    for f, src in src_by_file.items():
+        for m in re.finditer(r"\bconst\s+([A-Z_][A-Z0-9_]*)\s*:\s*(u8|u16|u32|u64|usize)\s*=\s*([^;]+);", src):
+            items.append((m.group(1), " ".join(m.group(3).split())))
+    progress = True
+    while progress:
+        progress = False
+        for name, expr in items:
+            if name in env:
+                continue
+            try:
+                env[name] = ec.eval_nat(expr, env)
+                progress = True
+            except Exception:
+                pass
     return env
 
 
